@@ -168,7 +168,7 @@ def _predicate(sc, res, soft):
                               and [x[2] for x in r] == list(range(len(cur) - 1, -1, -1)))
                 if not exp_ok:
                     return (i, "%s (all) replied %s, the connection held %s" % (name, r, cur))
-        elif name == "disc":
+        elif name in ("disc", "quit"):
             c = op[1]
             m = sc["conns"][c]
             if r == "timeout":
@@ -318,7 +318,7 @@ def steps_to_coq(sc, res):
             c = op[1]
             o = "%s %s %s %s %s" % ("OSub" if name in ("sub", "psub") else "OUnsub", cnat(cm[c]), cN(c), cbool(name in ("psub", "punsub")), cnames(op[2:]))
             b = replies_to_coq(r, KINDSTR[name])
-        elif name == "disc":
+        elif name in ("disc", "quit"):
             o = "ODisc %s %s" % (cnat(cm[op[1]]), cN(op[1]))
             b = {"ok": "BUnit"}.get(r)
         elif name == "pub":
@@ -403,7 +403,7 @@ def coq_compare(prefix, scenarios, results, shard=250, jobs=16):
 # ------------------------------------------------------------------------------------------
 
 ALPHABET = ["sub a", "sub b", "psub a*", "psub z*", "unsub a", "unsub", "punsub", "pub a", "pub b",
-            "channels", "numsub a", "numpat", "disc"]
+            "channels", "numsub a", "numpat", "disc", "quit"]
 
 
 def alpha_op(sym, c, m, pos):
@@ -418,8 +418,8 @@ def alpha_op(sym, c, m, pos):
         return ["numsub", m, w[1]]
     if w[0] == "numpat":
         return ["numpat", m]
-    if w[0] == "disc":
-        return ["disc", c]
+    if w[0] in ("disc", "quit"):
+        return [w[0], c]
     raise ValueError(sym)
 
 
@@ -447,7 +447,7 @@ def gen_exhaustive(rng, length, first_id=0):
                 if 0 in closed:
                     break
                 op = alpha_op(ALPHABET[ix], 0, pos % 2, pos)
-                if op[0] == "disc":
+                if op[0] in ("disc", "quit"):
                     closed.add(0)
                 ops.append(op)
             out.append({"id": sid, "members": 2, "conns": [0, 1], "ops": ops + tail_ops(2), "_kind": "ex-bg"})
@@ -462,7 +462,7 @@ def gen_exhaustive(rng, length, first_id=0):
                 if c in closed:
                     break
                 op = alpha_op(ALPHABET[ix], c, 0, pos)
-                if op[0] == "disc":
+                if op[0] in ("disc", "quit"):
                     closed.add(c)
                 ops.append(op)
             out.append({"id": sid, "members": 1, "conns": [0, 0], "ops": ops + tail_ops(1), "_kind": "ex-mix"})
@@ -527,7 +527,8 @@ def gen_random(rng, sid, concurrent=True):
         elif n == "numpat":
             ops.append(["numpat", m])
         elif n == "disc":
-            ops.append(["disc", c])
+            # the client closes its socket, or says QUIT first (a subscribed connection is served by the pub/sub loop)
+            ops.append([rng.choice(["disc", "quit"]), c])
             closed.add(c)
     return {"id": sid, "members": members, "conns": conns, "ops": ops + tail_ops(members), "_kind": "random"}
 
